@@ -148,6 +148,18 @@ func genC04(r *PRNG, tier string) *Scenario {
 	}
 	scn.Links = []Link{l}
 	scn.Net = NetCfg{DefCap: genCap(r)}
+	if r.Chance(1, 6) {
+		// the write side is broken (first write fails): no reply can be sent, the read side must behave the same
+		scn.Class = "violation-write-side-broken"
+		f := OpFault{Side: "w", AfterHead: true, K: r.Range(0, 1), Kind: r.Pick([]int{fErr, fTimeout, fShort}), N: 1}
+		if realIsServer {
+			scn.Net.Conns = []ConnCfg{{FaultsB: []OpFault{f}}}
+		} else {
+			f.K++
+			scn.Net.Conns = []ConnCfg{{FaultsA: []OpFault{f}}}
+		}
+		return scn
+	}
 	if r.Chance(1, 4) {
 		// contended class: a controller is stalled inside the transport (holding the write
 		// lock) when the violation arrives, so the 1002 is best effort
@@ -180,7 +192,9 @@ func oracleC04(run *Run) {
 	l := &run.Scn.Links[0]
 	e := realOfLink(run, 0)
 	if e == nil {
-		run.fail("HARNESS", "no-connection", "hs", "handshake failed")
+		if run.Scn.Class != "violation-write-side-broken" {
+			run.fail("HARNESS", "no-connection", "hs", "handshake failed")
+		}
 		return
 	}
 	_, exps := ExpandScript(l.Script, e.IsServer, run.Scn.Seed)
@@ -241,6 +255,9 @@ func oracleC04(run *Run) {
 			}
 		}
 	}
+	if run.Scn.Class == "violation-write-side-broken" {
+		return // what is on the wire after a failed write is C10's matter
+	}
 	// the wire: a close 1002 is the last thing written (not required for the top-bit case)
 	tv := decodeTap(wsTap(e), !e.IsServer, e.Negotiated)
 	if tv.V != nil {
@@ -258,7 +275,7 @@ func oracleC04(run *Run) {
 		}
 	}
 	contended := run.Scn.Class == "violation-contended"
-	must1002 := vclass != "length-topbit"
+	must1002 := vclass != "length-topbit" && run.Scn.Class != "violation-write-side-broken"
 	if contended {
 		// the reply is best effort: required only if the write lock became free within the second
 		st := run.Scn.Net.Conns[0].Stalls[0]
